@@ -58,7 +58,7 @@ func judgeCyclesOpt(c *Ctx, conf *cfg.Config, run *cli.Run, files map[string]str
 	cyclic := len(pc)+len(sc) > 0
 	sec := run.Rep.Section("Circular dependencies")
 	if sec == nil {
-		c.Violate("cycle-section-missing", "the report has no 'Circular dependencies' step\n"+run.Res.Stdout, files)
+		c.Inconclusive("the report has no 'Circular dependencies' step: the cycle diagnostics cannot be attributed")
 		return
 	}
 	if cyclic != (sec.Status == "fail") {
@@ -76,7 +76,7 @@ func judgeCyclesOpt(c *Ctx, conf *cfg.Config, run *cli.Run, files map[string]str
 	for _, ln := range sec.Errors {
 		el := parseCycleLine(ln)
 		if len(el) < 2 {
-			c.Violate("cycle-line-unreadable", fmt.Sprintf("cycle diagnostic has fewer than two elements: %q", ln), files)
+			c.Inconclusive(fmt.Sprintf("a cycle diagnostic could not be read (fewer than two elements): %q", ln))
 			continue
 		}
 		if el[0] != el[len(el)-1] {
@@ -386,7 +386,7 @@ func checkC07(c *Ctx) error {
 		run := cli.Do(w, "", nil, dir, out, args...)
 		files := map[string]string{"input/in.yaml": yaml, "stdout.txt": run.Res.Stdout, "args.txt": strings.Join(args, " ")}
 		for _, b := range run.Contract() {
-			c.Violate("cli-contract:"+sigWords(b), b, files)
+			c.Side("C10,C12", "cli-contract:"+sigWords(b), b, files)
 		}
 		g := ref.BuildGraph(conf)
 		edges := 0
@@ -442,7 +442,7 @@ func checkC07(c *Ctx) error {
 	}
 	for _, u := range units {
 		if !u.Compiled {
-			c.Violate("does-not-compile:"+errClass(u.CompileErr), fmt.Sprintf("unit %s: %s", u.ID, firstLines(u.CompileErr, 6)), unitFiles(u))
+			c.Side("C01", "does-not-compile:"+errClass(u.CompileErr), fmt.Sprintf("unit %s: %s", u.ID, firstLines(u.CompileErr, 6)), unitFiles(u))
 			continue
 		}
 		for i, r := range u.Results {
